@@ -344,6 +344,24 @@ func c01Positions(text string) [][2]int {
 	if len(ls) > 200 {
 		ls = ls[:200]
 	}
+	// positions inside comments (annotation lines are parsed at request time): every word start and
+	// end of a line that holds `--`
+	nc := 0
+	for _, l := range ls {
+		line := text[l.Start:l.End]
+		k := strings.Index(line, "--")
+		if k < 0 || nc > 300 {
+			continue
+		}
+		for j := k; j < len(line); j++ {
+			w := line[j] == '_' || line[j] == '@' || line[j] >= 'a' && line[j] <= 'z' || line[j] >= 'A' && line[j] <= 'Z'
+			pw := j > k && (line[j-1] == '_' || line[j-1] == '@' || line[j-1] >= 'a' && line[j-1] <= 'z' || line[j-1] >= 'A' && line[j-1] <= 'Z')
+			if w != pw {
+				add(l.Start + j)
+				nc++
+			}
+		}
+	}
 	for i, l := range ls {
 		ps = append(ps, [2]int{i, 0})
 		add(l.End)
